@@ -1,8 +1,296 @@
-import MesonModel.Template.Model
+/-
+C14 — Template substitution replaces exactly the placeholders and nothing else.
+Property theorems only; helper lemmas live in `MesonModel/Template/Lemmas.lean`.
+Statements quantify over every line / text (`List Char`), every configuration data and every fuel.
+-/
+import MesonModel.Template.Lemmas
 
 namespace MesonModel.Props.C14
 open MesonModel.Template MesonModel.Py
 
-theorem placeholder_tmp : (1 : Nat) = 1 := rfl
+/-! ### meson format: `@VAR@`, `\@VAR\@`, backslash pairs -/
+
+/-- the text substituted for `@nm@` : the value rendered by `str()`, empty when undefined -/
+def valueText (d : Data) (nm : Name) : List Char := render d (.var nm)
+
+/-- the matches and the unmatched characters partition the line: nothing is lost, duplicated or reordered -/
+theorem segments_partition (s : List Char) : (segments s).flatMap Seg.src = s :=
+  scan_partition _ _ _ (Nat.le_refl _)
+
+/-- `do_replacement_meson` is the concatenation of the per-segment replacements, and the segmentation
+`segments s` does not take the data as an argument -/
+theorem subst_eq_flatMap_render (d : Data) (s : List Char) :
+    substMeson d s = (segments s).flatMap (render d) := rfl
+
+/-- every character outside a match is copied unchanged, whatever the data -/
+theorem literal_bytes_preserved (d : Data) (c : Char) : render d (.lit c) = [c] := rfl
+
+/-- a line template: literal text and holes, independent of any data -/
+inductive Piece where
+  | text (t : List Char)
+  | hole (nm : Name)
+
+def fill (d : Data) : Piece → List Char
+  | .text t => t
+  | .hole nm => valueText d nm
+
+def pieceOf : Seg → Piece
+  | .lit c => .text [c]
+  | .esc n => .text (List.replicate n '\\')
+  | .var nm => .hole nm
+  | .escaped nm => .text ('@' :: (nm ++ ['@']))
+
+/-- **A substituted value is never scanned again**: for every line there is one data-independent
+skeleton of literal pieces and holes such that, for *all* data, the result is the skeleton with each
+hole filled by the value's text — the content of a value cannot influence what is substituted. -/
+theorem value_never_rescanned (s : List Char) :
+    ∃ skel : List Piece, ∀ d : Data, substMeson d s = skel.flatMap (fill d) := by
+  refine ⟨(segments s).map pieceOf, fun d => ?_⟩
+  rw [subst_eq_flatMap_render, List.flatMap_map]
+  congr 1
+  funext sg
+  cases sg <;> rfl
+
+example : substMeson [("var".toList, .str "@var2@".toList), ("var2".toList, .str "error".toList)]
+    "m \"@var@\"".toList = "m \"@var2@\"".toList := by decide
+
+/-- escape rules: `2n` backslashes in front of `@`/`\@` become `n`; `\@name\@` becomes `@name@` -/
+theorem escape_rules (d : Data) (n : Nat) (nm : Name) :
+    (Seg.esc n).src = List.replicate (2 * n) '\\' ∧ render d (.esc n) = List.replicate n '\\' ∧
+    (Seg.escaped nm).src = '\\' :: '@' :: (nm ++ ['\\', '@']) ∧ render d (.escaped nm) = '@' :: (nm ++ ['@']) :=
+  ⟨rfl, rfl, rfl, rfl⟩
+
+/-- a name is reported missing iff it occurs as a substituted placeholder and the data lacks it -/
+theorem missing_iff (d : Data) (s : List Char) (nm : Name) :
+    nm ∈ missingMeson d s ↔ (Seg.var nm ∈ segments s ∧ d.get? nm = none) := by
+  simp only [missingMeson, List.mem_filterMap]
+  constructor
+  · rintro ⟨sg, hsg, h⟩
+    cases sg with
+    | var n =>
+      simp only [segMissing] at h
+      split at h
+      · rename_i hn
+        cases h
+        exact ⟨hsg, by simpa using hn⟩
+      · cases h
+    | _ => simp [segMissing] at h
+  · rintro ⟨h1, h2⟩
+    exact ⟨_, h1, by simp [segMissing, h2]⟩
+
+/-- a line without `@` is copied unchanged and reports nothing -/
+theorem no_at_identity (d : Data) (s : List Char) (h : '@' ∉ s) :
+    substMeson d s = s ∧ missingMeson d s = [] :=
+  ⟨substMeson_no_at d s h, missingMeson_no_at d s h⟩
+
+example : '@' ∉ "plain \\ text ${X}\r\n".toList := by decide
+
+/-- **`@name@` after plain text is substituted exactly once**, the text before it is copied and the rest
+of the line is processed independently of the value -/
+theorem simple_var (d : Data) (pre name post : List Char)
+    (hpre : ∀ c ∈ pre, c ≠ '@' ∧ c ≠ '\\') (hn : name ≠ []) (hnc : ∀ c ∈ name, isNameChar c = true) :
+    substMeson d (pre ++ '@' :: (name ++ '@' :: post)) = pre ++ valueText d name ++ substMeson d post := by
+  simp only [substMeson, segments]
+  rw [scan_plain_prefix pre _ false _ hpre (Nat.le_refl _)]
+  have hlen : (pre ++ '@' :: (name ++ '@' :: post)).length - pre.length = (name ++ '@' :: post).length + 1 := by
+    simp
+  rw [hlen]
+  have hp : (if pre.isEmpty then false else false) = false := by split <;> rfl
+  rw [hp]
+  simp only [scan, matchAt_var name post hn hnc, Seg.endsBs]
+  rw [scan_eq_segments _ post (by simp; omega)]
+  simp [List.flatMap_append, flatMap_render_lit, valueText, segments]
+
+example : (∀ c ∈ "#define V \"".toList, c ≠ '@' ∧ c ≠ '\\') ∧ "var".toList ≠ [] ∧
+    (∀ c ∈ "var".toList, isNameChar c = true) := by decide
+
+/-- `\@name\@` after plain text yields `@name@` (no look-up) -/
+theorem simple_escaped (d : Data) (pre name post : List Char)
+    (hpre : ∀ c ∈ pre, c ≠ '@' ∧ c ≠ '\\') (hn : name ≠ []) (hnc : ∀ c ∈ name, isNameChar c = true) :
+    substMeson d (pre ++ '\\' :: '@' :: (name ++ '\\' :: '@' :: post)) =
+      pre ++ '@' :: (name ++ ['@']) ++ substMeson d post := by
+  simp only [substMeson, segments]
+  rw [scan_plain_prefix pre _ false _ hpre (Nat.le_refl _)]
+  have hlen : (pre ++ '\\' :: '@' :: (name ++ '\\' :: '@' :: post)).length - pre.length
+      = (name ++ '\\' :: '@' :: post).length + 1 + 1 := by
+    simp
+  rw [hlen]
+  simp only [scan, matchAt_escaped _ name post hn hnc, Seg.endsBs]
+  rw [scan_eq_segments _ post (by simp; omega)]
+  simp [List.flatMap_append, flatMap_render_lit, render, segments]
+
+/-! ### `#mesondefine` -/
+
+/-- the `#mesondefine` table, one row per value type; the whole line (terminator included) is the
+placeholder, the result always ends in `\n` -/
+theorem define_table (d : Data) (line t0 nm : List Char) (h : splitWs line = [t0, nm]) :
+    (d.get? nm = none → defineMeson d line = .ok (sUndefOpen ++ nm ++ sUndefClose)) ∧
+    (d.get? nm = some (.bool true) → defineMeson d line = .ok (sDefine ++ nm ++ ['\n'])) ∧
+    (d.get? nm = some (.bool false) → defineMeson d line = .ok (sUndef ++ nm ++ ['\n'])) ∧
+    (∀ i, d.get? nm = some (.int i) →
+      defineMeson d line = .ok (sDefine ++ nm ++ ' ' :: (toString i).toList ++ ['\n'])) ∧
+    (∀ v, d.get? nm = some (.str v) → '@' ∉ v → '@' ∉ nm →
+      defineMeson d line = .ok (strip (sDefine ++ nm ++ ' ' :: v) ++ ['\n'])) := by
+  refine ⟨?_, ?_, ?_, ?_, ?_⟩
+  · intro hv; simp only [defineMeson, h, hv]
+  · intro hv; simp only [defineMeson, h, hv]
+  · intro hv; simp only [defineMeson, h, hv]
+  · intro i hv; simp only [defineMeson, h, hv]
+  · intro v hv hat hnm
+    simp only [defineMeson, h, hv]
+    congr 1
+    apply substMeson_no_at
+    intro hmem
+    rcases List.mem_append.mp hmem with hm | hm
+    · have h1 := mem_of_mem_strip hm
+      rcases List.mem_append.mp h1 with h2 | h2
+      · rcases List.mem_append.mp h2 with h3 | h3
+        · exact absurd h3 (by decide)
+        · exact hnm h3
+      · rcases List.mem_cons.mp h2 with h3 | h3
+        · exact absurd h3 (by decide)
+        · exact hat h3
+    · simp at hm
+
+example : sDefine = "#define ".toList ∧ sUndef = "#undef ".toList ∧ sUndefOpen = "/* #undef ".toList ∧
+    sUndefClose = " */\n".toList := ⟨rfl, rfl, rfl, rfl⟩
+
+example : splitWs "  #mesondefine\tFOO \r\n".toList = ["#mesondefine".toList, "FOO".toList] := by decide
+
+/-- any other number of tokens on a `#mesondefine` line is an error, never a silent copy -/
+theorem define_needs_two_tokens (d : Data) (line : List Char) (h : (splitWs line).length ≠ 2) :
+    defineMeson d line = .error .defineTokens := by
+  unfold defineMeson
+  split
+  · rename_i heq; simp [heq] at h
+  · rfl
+
+/-! ### whole files: every byte outside a placeholder is copied (line endings included) -/
+
+/-- `readlines()` (newline='') followed by `writelines` loses nothing -/
+theorem splitLines_lossless (text : List Char) : (splitLines text).flatten = text := splitLines_flatten text
+
+/-- meson format: a text without `@` and `#` — whatever its backslashes, `$`, braces, CR / LF / CRLF mix —
+is reproduced byte for byte, with no missing variables -/
+theorem copy_identity_meson (d : Data) (fuel : Nat) (text : List Char) (h1 : '@' ∉ text) (h2 : '#' ∉ text) :
+    confFile .meson d fuel text = .ok (text, [], d.isEmpty) := by
+  have hl : ∀ l ∈ splitLines text, lineMeson d l = .ok ⟨l, [], false⟩ := by
+    intro l hl
+    exact lineMeson_plain d (fun h => h1 (mem_of_mem_splitLines _ _ hl _ h))
+      (fun h => h2 (mem_of_mem_splitLines _ _ hl _ h))
+  simp only [confFile, confStr, confStrMeson, mapLines_ok _ _ _ hl, Except.map, collect_plain,
+    splitLines_flatten]
+
+/-- cmake formats: a text without `@`, `$`, `#` is reproduced byte for byte (fuel > longest line) -/
+theorem copy_identity_cmake (atOnly : Bool) (d : Data) (fuel : Nat) (text : List Char)
+    (h1 : '@' ∉ text) (h2 : '#' ∉ text) (h3 : '$' ∉ text) (hf : ∀ l ∈ splitLines text, l.length < fuel) :
+    confFile (if atOnly then .cmakeAt else .cmake) d fuel text = .ok (text, [], d.isEmpty) := by
+  have hl : ∀ l ∈ splitLines text, lineCmake atOnly d fuel l = .ok ⟨l, [], false⟩ := by
+    intro l hl
+    exact lineCmake_plain atOnly d fuel (fun h => h1 (mem_of_mem_splitLines _ _ hl _ h))
+      (fun h => h2 (mem_of_mem_splitLines _ _ hl _ h)) (fun h => h3 (mem_of_mem_splitLines _ _ hl _ h)) (hf l hl)
+  cases atOnly <;>
+    simp only [confFile, confStr, confStrCmake, mapLines_ok _ _ _ hl, Except.map, collect_plain,
+      splitLines_flatten, if_true, Bool.false_eq_true, if_false]
+
+example : confFile .meson [] 0 "a \\ b\r\n{x}\rlast".toList = .ok ("a \\ b\r\n{x}\rlast".toList, [], true) := by
+  decide
+
+/-! ### cmake formats: the index scanner -/
+
+/-- a line without `@` and `$` is copied (one unit of fuel per character suffices) -/
+theorem cmake_no_placeholder_identity (atOnly : Bool) (d : Data) (fuel : Nat) (line : List Char)
+    (h1 : '@' ∉ line) (h2 : '$' ∉ line) (hf : line.length < fuel) :
+    substCmake atOnly d fuel line = .ok (line, []) := by
+  simpa [substCmake] using parseLine_plain atOnly d fuel [] line [] h1 h2 hf
+
+/-- full statement (termination): for every line and data some fuel lets the scanner finish -/
+def cmake_terminates_statement : Prop :=
+  ∀ (atOnly : Bool) (d : Data) (line : List Char), ∃ fuel, substCmake atOnly d fuel line ≠ .error .fuel
+
+/-- **the cmake scanner does not terminate on a self-referential value**: line `${A}` with `A = 'x${A}'`
+runs out of *every* fuel (the implementation never returns) -/
+theorem cmake_terminates_counterexample : ¬ cmake_terminates_statement := by
+  intro h
+  obtain ⟨fuel, hf⟩ := h false loopData "${A}".toList
+  exact hf (cmake_loop_aux fuel [] [])
+
+/-- termination holds on the placeholder-free part of the input space -/
+theorem cmake_terminates_partial (atOnly : Bool) (d : Data) (line : List Char) (h1 : '@' ∉ line) (h2 : '$' ∉ line) :
+    ∃ fuel, substCmake atOnly d fuel line ≠ .error .fuel :=
+  ⟨line.length + 1, by rw [cmake_no_placeholder_identity atOnly d _ line h1 h2 (Nat.lt_succ_self _)]; simp⟩
+
+/-- full statement (every well-formed `${VAR}` is replaced): two adjacent placeholders are both replaced -/
+def cmake_adjacent_statement : Prop :=
+  ∀ (d : Data) (a b : Name) (va vb : List Char), d.get? a = some (.str va) → d.get? b = some (.str vb) →
+    '$' ∉ va → '@' ∉ va → '$' ∉ vb → '@' ∉ vb → a ≠ [] → b ≠ [] → (∀ c ∈ a ++ b, isCmakeChar c = true) →
+    substCmake false d 100 ("${".toList ++ a ++ "}${".toList ++ b ++ "}".toList) = .ok (va ++ vb, [])
+
+/-- the code violates it: after an *empty* value the next character is skipped, so `${A}${B}` with
+`A = ''` leaves `${B}` in the output and reports nothing -/
+theorem cmake_adjacent_counterexample : ¬ cmake_adjacent_statement := by
+  intro h
+  have := h [(['A'], .str []), (['B'], .str "bee".toList)] ['A'] ['B'] [] "bee".toList rfl rfl
+    (by decide) (by decide) (by decide) (by decide) (by decide) (by decide) (by decide)
+  revert this
+  decide
+
+example : substCmake false [(['A'], .str []), (['B'], .str "bee".toList)] 100 "${A}${B}".toList
+    = .ok ("${B}".toList, []) := by decide
+
+/-! ### `#mesondefine` string values are scanned once more -/
+
+/-- full statement: the value written by `#mesondefine` is not scanned again -/
+def define_value_opaque_statement : Prop :=
+  ∀ (d : Data) (line t0 nm v : List Char), splitWs line = [t0, nm] → d.get? nm = some (.str v) →
+    defineMeson d line = .ok (strip (sDefine ++ nm ++ ' ' :: v) ++ ['\n'])
+
+theorem define_value_opaque_counterexample : ¬ define_value_opaque_statement := by
+  intro h
+  have := h [("var".toList, .str "@var2@".toList), ("var2".toList, .str "error".toList)]
+    "#mesondefine var\n".toList "#mesondefine".toList "var".toList "@var2@".toList (by decide) (by decide)
+  revert this
+  decide
+
+/-! ### header without a template -/
+
+/-- the header is prelude, then one block per entry of the *sorted* entry list, then the epilogue -/
+theorem header_shape (f : HdrFormat) (guard : Option (List Char)) (es : List Entry) :
+    dumpHeader f guard es = hdrPrelude f guard ++ (sortEntries es).flatMap (entryText f) ++ hdrEpilogue f guard := rfl
+
+/-- every block ends with exactly the directive for its key -/
+theorem entry_directive (f : HdrFormat) (e : Entry) :
+    ∃ comment, entryText f e = comment ++ directive f e.key e.val := ⟨_, rfl⟩
+
+/-- **exactly the keys, once each, in sorted order**: the emitted blocks are a permutation of the data's
+entries (nothing added, dropped or duplicated) and their keys ascend in code-point order; with distinct
+keys (a dict) the order is strict, so the emitted key sequence is *the* sorted key list -/
+theorem header_keys_sorted_once (es : List Entry) :
+    (sortEntries es).Perm es ∧
+    (sortEntries es).Pairwise (fun a b => strLe a.key b.key = true) ∧
+    ((es.map (·.key)).Nodup →
+      (sortEntries es).Pairwise (fun a b => strLe a.key b.key = true ∧ a.key ≠ b.key)) := by
+  refine ⟨sortEntries_perm es, sortEntries_sorted es, fun hnd => ?_⟩
+  have hnd' : ((sortEntries es).map (·.key)).Nodup :=
+    ((sortEntries_perm es).map (·.key)).nodup_iff.mpr hnd
+  have h1 := sortEntries_sorted es
+  have h2 : (sortEntries es).Pairwise (fun a b => a.key ≠ b.key) := by
+    simpa [List.Nodup, List.pairwise_map] using hnd'
+  exact List.Pairwise.and h1 h2 |>.imp (fun h => h)
+
+/-- two sorted duplicate-free key sequences with the same elements are equal: the output order is
+determined by the key set alone (insertion order of the dict is irrelevant) -/
+theorem header_order_canonical (es es' : List Entry) (hp : es.Perm es') (hnd : (es.map (·.key)).Nodup) :
+    (sortEntries es).map (·.key) = (sortEntries es').map (·.key) := by
+  have p1 : ((sortEntries es).map (·.key)).Perm ((sortEntries es').map (·.key)) :=
+    (((sortEntries_perm es).trans hp).trans (sortEntries_perm es').symm).map _
+  have s1 : ((sortEntries es).map (·.key)).Pairwise (fun a b => strLe a b = true) := by
+    rw [List.pairwise_map]; exact sortEntries_sorted es
+  have s2 : ((sortEntries es').map (·.key)).Pairwise (fun a b => strLe a b = true) := by
+    rw [List.pairwise_map]; exact sortEntries_sorted es'
+  exact List.Perm.eq_of_pairwise (fun a b _ _ h1 h2 => strLe_antisymm a b h1 h2) s1 s2 p1
+
+example : (sortEntries [⟨"b".toList, .bool true, none⟩, ⟨"B".toList, .int 1, none⟩, ⟨"a10".toList, .str [], none⟩,
+    ⟨"a2".toList, .bool false, none⟩]).map (·.key) = ["B".toList, "a10".toList, "a2".toList, "b".toList] := by decide
 
 end MesonModel.Props.C14
